@@ -31,6 +31,10 @@ type Options struct {
 	// to the type; a deny-list does not). Exported fields of such a type are
 	// skipped.
 	AllowOnly map[string]map[string]bool
+	// Part, if set, is told every top-level member (field, method, method with
+	// arguments) of the observed object and its text, in order. Worlds that
+	// compare observations over time use it to compare member by member.
+	Part func(member, text string)
 	// NoFields skips exported struct fields (methods only).
 	NoFields bool
 	// Args, when set, synthesises arguments for methods that take one or two
@@ -247,14 +251,18 @@ func dumpObject(sb *strings.Builder, pv reflect.Value, opt *Options, depth int, 
 				if !et.Field(i).IsExported() || et.Field(i).Anonymous {
 					continue
 				}
+				at := sb.Len()
 				sb.WriteString(et.Field(i).Name + "=")
 				dump(sb, pv.Elem().Field(i), opt, depth+1, seen)
 				sb.WriteString(";")
+				part(sb, opt, depth, et.Field(i).Name, at)
 			}
 		}
 	default:
+		at := sb.Len()
 		dumpPlain(sb, pv.Elem(), opt, depth+1, seen)
 		sb.WriteString(";")
+		part(sb, opt, depth, "(content)", at)
 	}
 	for i := 0; i < pt.NumMethod(); i++ {
 		m := pt.Method(i)
@@ -265,6 +273,7 @@ func dumpObject(sb *strings.Builder, pv reflect.Value, opt *Options, depth int, 
 				if !ok {
 					break
 				}
+				at := sb.Len()
 				fmt.Fprintf(sb, "%s(args%d)=", m.Name, variant)
 				func() {
 					defer func() {
@@ -283,6 +292,7 @@ func dumpObject(sb *strings.Builder, pv reflect.Value, opt *Options, depth int, 
 					}
 				}()
 				sb.WriteString(";")
+				part(sb, opt, depth, fmt.Sprintf("%s(args%d)", m.Name, variant), at)
 			}
 			continue
 		}
@@ -292,6 +302,7 @@ func dumpObject(sb *strings.Builder, pv reflect.Value, opt *Options, depth int, 
 		if opt.denied(name, m.Name) {
 			continue
 		}
+		at := sb.Len()
 		sb.WriteString(m.Name + "()=")
 		func() {
 			defer func() {
@@ -311,6 +322,14 @@ func dumpObject(sb *strings.Builder, pv reflect.Value, opt *Options, depth int, 
 			}
 		}()
 		sb.WriteString(";")
+		part(sb, opt, depth, m.Name+"()", at)
 	}
 	sb.WriteString(">")
+}
+
+// part reports one top-level member to opt.Part.
+func part(sb *strings.Builder, opt *Options, depth int, member string, from int) {
+	if depth == 0 && opt.Part != nil {
+		opt.Part(member, sb.String()[from:])
+	}
 }
